@@ -84,8 +84,9 @@ type c15World struct {
 	A, B    *c15Node
 	byID    map[libpeer.ID]**c15Node
 	docs    []string
-	patched bool
-	errs    []string
+	patched  bool
+	patchedA bool
+	errs     []string
 }
 
 func (w *c15World) open(n *c15Node, other **c15Node, fresh bool) error {
@@ -177,7 +178,7 @@ func (w *c15World) apply(ev string) bool {
 	case "tick":
 		w.A.peer.VerifRetryTick(ctx)
 	case "patch":
-		if w.patched {
+		if w.patched || w.patchedA {
 			return false
 		}
 		for _, n := range []*c15Node{w.A, w.B} {
@@ -186,6 +187,15 @@ func (w *c15World) apply(ev string) bool {
 			}
 		}
 		w.patched = true
+	case "patchA":
+		// only the source is patched: B stays on the older version and ignores the field it does not know
+		if w.patched || w.patchedA {
+			return false
+		}
+		if err := w.A.db.PatchSchema(ctx, `[{"op": "add", "path": "/User/Fields/-", "value": {"Name": "email", "Kind": "String"}}]`, immutable.None[model.Lens](), true); err != nil {
+			w.errs = append(w.errs, "patchA: "+err.Error())
+		}
+		w.patchedA = true
 	case "restartA":
 		if err := w.restart(w.A, &w.B); err != nil {
 			w.errs = append(w.errs, "restartA: "+err.Error())
@@ -315,7 +325,7 @@ func c15Body(seq []string, resp *c15Result) func() {
 		skip := func(k string) bool { return !strings.Contains(k, "/db/ps/") }
 		ownedA, nIDs := c15Retry(w.A.st.Snapshot())
 		// the in-memory routing tables are part of the state (they are rebuilt at start from the peerstore)
-		routes := fmt.Sprint(len(w.A.peer.VerifReplicators()), len(w.B.peer.VerifReplicators()))
+		routes := fmt.Sprint(len(w.A.peer.VerifReplicators()), len(w.B.peer.VerifReplicators()), w.patchedA)
 		res.key = fmt.Sprintf("%x|%x|%v|%v|%v|%d|%v|%s", w.A.st.Snapshot().Hash(skip), w.B.st.Snapshot().Hash(skip), w.B.up, w.patched, ownedA, nIDs, replicating, routes)
 		if !replicating {
 			return
@@ -402,7 +412,7 @@ func runC15(args []string) int {
 		depth = 9
 		budget = 45 * time.Minute
 	}
-	alphabet := []string{"setrep", "create", "update", "create2", "down", "up", "tick", "patch", "restartA", "restartB"}
+	alphabet := []string{"setrep", "create", "update", "create2", "down", "up", "tick", "patch", "patchA", "restartA", "restartB"}
 	start := time.Now()
 	seen := map[string]bool{}
 	frontier := [][]string{{}}
@@ -537,7 +547,7 @@ func c15SeqClass(seq []string) string {
 		return false
 	}
 	var f []string
-	for _, e := range []string{"patch", "restartA", "restartB", "down"} {
+	for _, e := range []string{"patch", "patchA", "restartA", "restartB", "down"} {
 		if has(e) {
 			f = append(f, e)
 		}
